@@ -61,22 +61,22 @@ PROPS = {
     },
     "C02": {
         "file": "C02.v",
-        "streams": [S("conc", 40, 600, focus="C02", timeout=2400)],
+        "streams": [S("conc", 40, 600, focus="C02", timeout=2400), S("htl", 150, 3000)],
         "claim": "A Coq-verified (sound and complete) linearizability checker for per-key histories against the lossy register, with the three consequences named in the property as theorems; real concurrent histories of the cache (all policies, tiny capacities and rings) are cut at quiescent points and decided by the extracted checker on every run. Table level: theorems on an LTS of lock-free lookups against the single writer at the granularity of individual atomic loads/stores (hit = item of that key alive during the lookup; miss = key unpublished at some instant; never another key's value). The strict statement is machine-refuted inside one in-flight re-insert (present/absent/present, finding F10), so the property is claimed with that exception.",
         "note": "Trusted: Coq kernel, extraction, driver, harness. sync/atomic is taken as sequentially consistent; Go's scheduler decides which interleavings the stress run explores (evidence, not proof). Cache-level trace inclusion (locks + table) is argued in DESIGN.md, not mechanised.",
         "assumptions": ["values written are pairwise distinct (harness guarantees it)", "windows longer than 14 overlapping calls end a key's chain (counted in the evidence)"],
     },
     "C11": {
         "file": "C11.v",
-        "streams": [S("conc", 40, 600, focus="C11", timeout=2400, race=True)],
+        "streams": [S("conc", 40, 600, focus="C11", timeout=2400, race=True), S("htl", 150, 3000)],
         "claim": "Table-level theorems on the atomic-step LTS: a lookup's key and value are fields of one item object created by one write (items are never mutated), the structural invariant holds at every instant including between the two stores of an operation, replaced arrays are frozen, lookups terminate within n*(w+1) loads. Tied to /repo by free-running stress with multi-word checksummed values (torn values, TTL/value pairing), panics recovered as violations, the internal-structure checker at quiescence, one-writer/many-reader races on the real table; the thorough tier runs the same under the Go race detector.",
         "note": "Trusted: as C02. Data-race freedom in the Go memory-model sense is not expressible in the model: the race detector in the thorough tier is a search tool, so that clause is partial.",
         "assumptions": ["sync/atomic operations are single sequentially consistent steps"],
     },
     "C12": {
         "file": "C12.v",
-        "streams": [S("ht", 400, 6000)],
-        "claim": "Theorems over HtableModel (a statement-by-statement model of htable.go in its under-the-lock view): for every hash function (so identical, colliding and sentinel-valued hashes are inside the quantifier), every table size and growth point and every protocol-respecting sequence of store / lookup / probe-then-publish / probe-then-abandon / replace / removeExact / clear with removals between probe and publish, the table refines an abstract map at every step, lookups terminate within one pass, resident keys are never lost, removed keys never resurrected, and the live counter equals the contents. Tied to /repo by T-trace on the real htable through VerifHtable plus a reference-map monitor. The clause about lookups running concurrently with the writer is decided by the lock-step/stress streams (see C02/C11) and is stated as partial here.",
+        "streams": [S("ht", 400, 6000), S("htl", 150, 3000), S("conc", 16, 300, timeout=2400)],
+        "claim": "Theorems over HtableModel (a statement-by-statement model of htable.go in its under-the-lock view): for every hash function (so identical, colliding and sentinel-valued hashes are inside the quantifier), every table size and growth point and every protocol-respecting sequence of store / lookup / probe-then-publish / probe-then-abandon / replace / removeExact / clear with removals between probe and publish, the table refines an abstract map at every step, lookups terminate within one pass, resident keys are never lost, removed keys never resurrected, and the live counter equals the contents. Tied to /repo by T-trace on the real htable through VerifHtable plus a reference-map monitor. Lookups concurrent with the writer: theorems on the atomic-step LTS HtableLts (see C02/C11 for reader soundness, termination bound n*(w+1), structural invariant at every instant), which is tied to /repo by T-lockstep: the real htable runs under a cooperative scheduler parked at yield points between its atomic accesses and must reach the same yield point / result as the extracted LTS after every step of random schedules; plus one-writer/four-reader free-running races.",
         "note": "Trusted: Coq kernel, extraction, driver, harness, VerifHtable wrapper. Pointer identity is modelled by a fresh iid per item object. Concurrent readers: not covered by these theorems.",
         "assumptions": [
             "operations follow the calling protocol of the cache (between a missed probe and its publish/unpin only removals and clear happen; store/probe are not issued while a cursor is parked)",
